@@ -262,6 +262,12 @@ func checkHistory(hist history) (h.Info, error) {
 			}
 		case "reset":
 			in.c.Reset()
+			// a reset instance is like a new one: it may be used with another batch size
+			if o.N >= 1 && o.N <= maxLanes {
+				in.n = o.N
+				in.model = make([]*ref.Sponge, in.n)
+				in.held = nil
+			}
 			for j := range in.model {
 				in.model[j] = &ref.Sponge{}
 			}
@@ -280,14 +286,37 @@ func checkHistory(hist history) (h.Info, error) {
 				size = maxLanes + 1
 			case "length":
 				count = ref.Rate + 1 + o.Blocks // not a multiple of 243
+			case "shortlane":
+				count = 2 * ref.Rate // one lane holds a single block only
 			default:
 				return h.Info{}, fmt.Errorf("PRECONDITION: bad kind")
 			}
 			bufs := make([]trinary.Trits, size)
 			for j := range bufs {
 				bufs[j] = make(trinary.Trits, 2*ref.Rate)
+				for i := range bufs[j] {
+					bufs[j][i] = int8((i+j)%3) - 1
+				}
 			}
-			if o.Kind == "bad-absorb" {
+			shortPanicked := false
+			if o.Bad == "shortlane" {
+				// lanes of unequal length are outside the statement's domain; today the call panics. Should
+				// it instead be REJECTED WITH AN ERROR, the statement's last clause applies: state untouched.
+				bufs[size-1] = bufs[size-1][:ref.Rate]
+				func() {
+					defer func() {
+						if recover() != nil {
+							shortPanicked = true
+						}
+					}()
+					err = in.c.Absorb(bufs, count)
+				}()
+				if shortPanicked || err == nil {
+					// a panic, or acceptance, of an out-of-domain call: nothing is prescribed, and the
+					// instance is in no defined state any more: the history ends here
+					return h.Info{Class: "history/out-of-domain-call-ends-history"}, nil
+				}
+			} else if o.Kind == "bad-absorb" {
 				// on a squeezing instance the call is rejected either by the argument validation (an
 				// error) or by the documented "absorb after squeeze" panic; the statement fixes no order
 				// between the two, only that the state is untouched
@@ -380,6 +409,9 @@ func genHistory(t *rapid.T) history {
 		switch kind {
 		case 0:
 			k := h.Pick(t, "blocks", 1, 6, 3, 1)
+			if h.Pick(t, "longabsorb", 60, 1) == 1 { // many blocks in one call (more than one 8019-trit transaction)
+				k = h.OneOf(t, "longblocks", 32, 33, 34, 35, 66, 67, 100)
+			}
 			o := op{Kind: "absorb", Inst: i, Blocks: k, Mode: h.Pick(t, "mode", 1, 2, 4)}
 			o.Base = make([]int8, k*ref.Rate)
 			fill := h.Pick(t, "fill", 4, 1, 1)
@@ -414,13 +446,22 @@ func genHistory(t *rapid.T) history {
 			}
 		case 3:
 			st[i].squeezing = false
-			ops = append(ops, op{Kind: "reset", Inst: i})
+			o := op{Kind: "reset", Inst: i}
+			if rapid.Bool().Draw(t, "newn") { // reuse with another batch size
+				o.N = h.OneOf(t, "resetn", 1, 2, 3, 7, maxLanes-1, maxLanes, rapid.IntRange(1, maxLanes).Draw(t, "resetnany"))
+				st[i].n = o.N
+			}
+			ops = append(ops, o)
 		case 4:
 			if len(st) < 4 {
 				newInst()
 			}
 		case 5: // also on a squeezing instance: rejected (by error or by the documented panic), state untouched
-			ops = append(ops, op{Kind: "bad-absorb", Inst: i, Bad: h.OneOf(t, "bad", "size0", "size65", "length"), Blocks: rapid.IntRange(0, 200).Draw(t, "extra")})
+			bad := h.OneOf(t, "bad", "size0", "size65", "length", "shortlane")
+			if bad == "shortlane" && st[i].squeezing {
+				bad = "length"
+			}
+			ops = append(ops, op{Kind: "bad-absorb", Inst: i, Bad: bad, Blocks: rapid.IntRange(0, 200).Draw(t, "extra")})
 		default:
 			ops = append(ops, op{Kind: "bad-squeeze", Inst: i, Bad: h.OneOf(t, "bad", "size0", "size65", "length"), Blocks: rapid.IntRange(0, 200).Draw(t, "extra")})
 		}
@@ -433,7 +474,7 @@ func TestHistories(t *testing.T) {
 		Prop: "C06", Name: "histories-" + buildVariant, N: 1600,
 		Gen: genHistory, Check: checkHistory,
 		Require: []string{"history/clone", "history/reset-reuse", "history/rejected-call", "history/split-absorb", "history/multi-block-squeeze", "history/caller-supplied-dst"},
-		Rule:    "histories of 2..12 calls over up to 4 instances (batch sizes weighted to 1, 2, W-1, W, where W = lanes per machine word of the build target: 64, or 32 for the GOARCH=386 variant): Absorb of 0..3 blocks (equal lanes / single-trit differences / all lanes different, optionally split across calls), Squeeze of 0..3 blocks into 1..n lanes (dst: fresh, the caller's long-lived slice still holding earlier results that must stay intact, or adjacent windows of one buffer), Clone, Reset, rejected calls (batch size 0 / W+1, length not a multiple of 243); after every step the bit-sliced state of every instance decoded lane by lane must equal n independent scalar Curl-P-81 sponges and squeezed output = the lane's own sponge; non-trivial = >= 1 absorbed block, >= 1 squeezed block and >= 2 different lanes; distinct by history",
+		Rule:    "histories of 2..12 calls over up to 4 instances (batch sizes weighted to 1, 2, W-1, W, where W = lanes per machine word of the build target: 64, or 32 for the GOARCH=386 variant): Absorb of 0..3 blocks (equal lanes / single-trit differences / all lanes different, optionally split across calls), Squeeze of 0..3 blocks into 1..n lanes (dst: fresh, the caller's long-lived slice still holding earlier results that must stay intact, or adjacent windows of one buffer), Clone, Reset (optionally followed by use with another batch size), occasional absorbs of 32..100 blocks in one call, rejected calls (batch size 0 / W+1, length not a multiple of 243); after every step the bit-sliced state of every instance decoded lane by lane must equal n independent scalar Curl-P-81 sponges and squeezed output = the lane's own sponge; non-trivial = >= 1 absorbed block, >= 1 squeezed block and >= 2 different lanes; distinct by history",
 	})
 }
 
